@@ -144,3 +144,20 @@ also("C08", "The expiry check of a sublayout compares with a clock reading of it
 also("C10", "A3.7: a map created before a map-range loop that is updated per element and also read inside the loop makes an iteration depend on the ones before it.")
 also("C15", "R-C15-9: a method is called on the interface result of a map lookup only under a checked comma-ok, a nil test, or a key that provably comes from that map's own keys in the same iteration (a key list carried around an outer loop does not count); the two lookups of GetSummaryLink rest on the reviewed pipeline invariant that ReduceStepsMetadata stores an entry per step.")
 also("C19", "R-C19-9: every success return of setKeyComponents lies behind a successful generateKeyID(), and every store into KeyID is the digest computed in that call.")
+
+# round 12 (one-token edits)
+for _p in ("C03", "C19"):
+    also(_p, "A2 also covers functions without error result: an early exit that runs into the same return with the same values as exhaustion carries no answer and is reported; loops whose body always leaves are judged by the edges leaving the body region.")
+also("C05", "The summary link is named by a string parameter of the entry point that is handed to no other stage or file-system call (shared R-C09-6).")
+also("C07", "R-C08-6 (shared): the recursion of VerifySublayouts hands down the caller's intermediates; R-C20-10 (shared): the intermediates list of the verify command is not made with a length and then appended to.")
+also("C08", "R-C08-6: the recursive call receives VerifySublayouts' own [][]byte and bool parameters; R-C05-1 (shared): the entry point it recurses into evaluates step rules on the reduced links and inspection rules on the inspection results.")
+also("C09", "R-C09-8: on every path of RunCommand to the start of the command on which the run directory may be non-empty, Cmd.Dir was set to it (path-sensitive enumeration).")
+also("C12", "R-C12-8: the result of an iterator advance (reflect.MapIter.Next, bufio.Scanner.Scan) is the exit test of a loop.")
+also("C13", "Path flags of the commands are StringArray flags (shared R-C20-2): a path with a comma reaches RecordArtifacts as given.")
+also("C14", "R-C09-8 (shared): the command starts in the requested directory; R-C09-2 / R-C09-3 (shared): the consumer of the by-products compares the stored return value itself, so an absent value is not taken for exit status 0.")
+also("C16", "R-C16-7: the result of append(x.f, ...) goes back into the field it was read from; no signature list is grown in another object's backing array.")
+also("C04", "R-C16-7 (shared): Envelope.Sign / Metablock.Sign never append onto the signature array of another object.")
+also("C17", "R-C17-13: the guard of the escape skip in scanChunk is, in integer-linear normal form, exactly i+2 <= len(pattern).")
+also("C18", "R-C18-8: every success path of SubstituteParameters with a possibly non-empty dictionary runs through the loop over the steps and the loop over the inspections (or the helper that holds it).")
+also("C20", "R-C20-10: no slice in cmd / in_toto / internal/spiffe is made with a non-zero length and then only appended to.")
+also("C15", "Index-below-length facts are decided on the integer-linear normal form of the comparison (i < len(x)-1 and i+1 < len(x) are the same fact); x[:len(x):len(x)] is a bound idiom.")
